@@ -253,6 +253,20 @@ pub fn run_val_family(ctx: &Ctx, fam: &ValFamily) -> Stats {
             true
         };
         if f.is_u16() {
+            let mut tk = 0usize;
+            let ok = memgen::after_pair_triples16(|v| {
+                tk += 1;
+                if tk % LANES != lane {
+                    return true;
+                }
+                k += 1;
+                let c = VCase { f, src8: vec![], src16: v.to_vec(), align: fam.aligns[k % fam.aligns.len()], force_scalar: fam.force_scalar };
+                st.class("three-units-after-a-surrogate-pair");
+                run(c, st)
+            });
+            if !ok {
+                return;
+            }
             for (ai, &a) in memgen::UNIT_EDGES16.iter().enumerate() {
                 if ai % LANES != lane {
                     continue;
